@@ -64,7 +64,6 @@ MUTANTS = [
     ("c13-plus-two", "C13", B, "                self.mesh_size_integer + 1, self.options[\"max_poll_grid_number\"]", "                self.mesh_size_integer + 2, self.options[\"max_poll_grid_number\"]"),
     ("c13-no-cap", "C13", B, "            self.mesh_size_integer = np.minimum(\n                self.mesh_size_integer + 1, self.options[\"max_poll_grid_number\"]\n            )", "            self.mesh_size_integer = self.mesh_size_integer + 1"),
     ("c13-accel-without-stall", "C13", B, "                if (\n                    self.f_q_historic_improvement < self.options[\"tol_fun\"]\n                ):  # or", "                if (\n                    True\n                ):  # or"),
-    ("c14-fixed-sign", "C14", PM, "    diag = n_max * 2 * (rnd.randint(1, 3, dim_x) - 1.5)", "    diag = n_max * 2 * (rnd.randint(1, 3, dim_x) * 0 + 0.5)"),
     ("c14-drop-negative-half", "C14", PM, "    B_new = np.vstack((D, -D))", "    B_new = np.vstack((D, D))"),
     ("c14-singular", "C14", PM, "    D = np.transpose(rnd.permutation(D))", "    D = np.transpose(rnd.permutation(D))\n    if dim_x > 2 and n_max > 1 and D[0, 0] == 0:\n        D[0] = D[1]"),
     ("c15-descending-sort", "C15", GPT, "    sort_idx = np.argsort(dist)  # Ascending sort", "    sort_idx = np.argsort(-dist)  # Ascending sort"),
@@ -73,7 +72,8 @@ MUTANTS = [
     ("c15-yorig", "C15", GPT, "    Y = function_logger.Y[0 : U_max_idx + 1].copy()", "    Y = function_logger.Y_orig[0 : U_max_idx + 1].copy()"),
     ("c16-no-except-refit", "C16", GPT, "            break\n        except np.linalg.LinAlgError:\n            # handle", "            break\n        except ZeroDivisionError:\n            # handle"),
     ("c16-s2-not-dropped", "C16", GPT, "                if s2 is not None and not np.isscalar(s2):\n                    s2 = s2[~idx_drop_out]\n", ""),
-    ("c17-no-dedup", "C17", CC, "    _, idx_sort = np.unique(U_new, axis=0, return_index=True)\n    U_new = U_new[np.sort(idx_sort), :]\n\n    # Remove previously", "    # Remove previously"),
+    ("c17-no-dedup-both", "C17", [CC, CC], ["    _, idx_sort = np.unique(U_new, axis=0, return_index=True)\n    U_new = U_new[np.sort(idx_sort), :]\n\n    # Remove previously", "        u1_idx = idx_sort[idx_sort < len(u1)]\n"], ["    # Remove previously", "        u1_idx = np.arange(len(u1))\n"]),
+    ("c14-poll-projected", "C14", B, "                    self.function_logger,\n                    False,\n                    self.non_box_cons,", "                    self.function_logger,\n                    True,\n                    self.non_box_cons,"),
     ("c18-es-second-best", "C18", ES, "        return us[0], z[0]", "        return (us[1], z[1]) if len(z) > 1 else (us[0], z[0])"),
     ("c18-hedge-no-floor", "C18", HD, "        self.prob = self.prob * (1 - self.n_funs * self.gamma) + self.gamma", "        self.prob = self.prob * (1 - self.n_funs * self.gamma) + self.gamma * (self.count < 4)"),
     ("c18-double-eval", "C18", B, "            y_search, f_sd_search, idx = self.function_logger(u_search)\n", "            y_search, f_sd_search, idx = self.function_logger(u_search)\n            if self.function_logger.func_count % 9 == 0:\n                self.function_logger(u_search, record_duplicate_data=False)\n"),
@@ -82,7 +82,7 @@ MUTANTS = [
     ("c19-result-no-copy", "C19", OR, "            dict.__setitem__(self, key, copy.deepcopy(val))", "            dict.__setitem__(self, key, val)"),
     ("c20-advanced-overwrites-user", "C20", OPT, "            if key not in self.get(\"useroptions\") and key != \"useroptions\":", "            if (key not in self.get(\"useroptions\") or key == \"tol_fun\") and key != \"useroptions\":"),
     ("c20-no-name-validation", "C20", B, "        self.options.validate_option_names([basic_path, advanced_path])\n\n        if self.options[\"stobads\"]", "        if self.options[\"stobads\"]"),
-    ("c20-mutates-caller-x0", "C20", B, "            x0.copy(),\n            lower_bounds,", "            x0,\n            lower_bounds,"),
+    ("c20-mutates-caller-x0", "C20", [B, B], ["            x0.copy(),\n            lower_bounds,", "            x0 = np.maximum((np.minimum(x0, UB_eff)), LB_eff)\n"], ["            x0,\n            lower_bounds,", "            np.clip(x0, LB_eff, UB_eff, out=x0)\n"]),
 ]
 
 
@@ -112,7 +112,11 @@ def main(argv):
             diff = subprocess.run(["git", "-C", "/repo", "diff", "HEAD"], capture_output=True, text=True).stdout
             if diff.strip():
                 subprocess.run(["git", "-C", root, "apply"], input=diff, text=True, check=True)
-            apply(root, path, old, new)
+            if isinstance(path, (list, tuple)):
+                for p_, o_, n_ in zip(path, old, new):
+                    apply(root, p_, o_, n_)
+            else:
+                apply(root, path, old, new)
             os.makedirs(out)
             t0 = time.time()
             env = dict(os.environ, PYBADS_ROOT=root, VERIF_OUT_DIR=out)
